@@ -3,16 +3,38 @@ from lib.props.meta_common import ASSUME_COMMON
 ID = "C02"
 META = dict(
     LEVEL="exploration",
-    RULE=("valid generated table collections (nodes, edges, sites, mutations with parents and known/unknown times, individuals, "
-          "populations, migrations) left untouched, changed by a validity-preserving operator, or changed by 1-4 'suspect' "
-          "operators (each reference column set to -2/-1/n/n+1/2^31-1, each float column set to nan/+-inf/-1/-0.0/L/L+1/"
-          "nextafter values, left==right, swapped/duplicated rows, parent time equal/younger, overlapping child intervals, mutation "
-          "parent self/after/before, mutation time below node/above parent/mixed unknown, sequence_length 0/-1/nan) crossed with "
-          "index absent/built/reversed/permuted/out-of-range/duplicate; verdict from an independent validity predicate over the "
-          "raw rows; gate = tree_sequence() and dump->tskit.load. Distinct = sha1(rows, operator labels, index); non-trivial when "
-          "at least one operator or a user index was applied."),
-    REQUIRED=["gate-calls:tree_sequence", "gate-calls:tskit.load", "rows-unchanged-checks", "accepted-usable"],
-    ASSUMPTIONS=ASSUME_COMMON + ["requirements the statement does not list (mutation parent topology, individual parent order, "
-                                 "index tie-breaks, infinite sequence length) are an EITHER zone: only error type and unchanged rows are checked"],
+    RULE=("five families in fixed shares (per 40 cases: 14 mutate, 16 sweep, 4 index, 5 reorder, 1 large). mutate: valid generated "
+          "collection (nodes, edges, sites, mutations with parents and known/unknown times, individuals, populations, migrations) "
+          "untouched / changed by a validity-preserving operator / by 1-4 random operators x index absent/built/stale/reversed/"
+          "permuted/out-of-range/duplicate. sweep: the operator catalogue (~350 entries) enumerated round-robin, one per case, on a "
+          "model forced to have the rows it needs, row forced first/second/last/random: every reference column x {-2,-1,n,n+1,"
+          "2^31-1,-2^31,0,n-1}; every float column x {nan, other NaN payloads, +-inf, -1, -0.0, 0, L, L+1, L+-ulp, +-1e308, "
+          "+-denormal, current+-ulp}; intervals (left==right, swapped, right=L, left=0, one-ulp long); parent/child time equal / one "
+          "ulp apart; adjacent rows swapped / duplicated; site position and migration time equal / one ulp above / below the "
+          "previous row; edges split (ordered, reversed, one-ulp gap, one-ulp overlap, same left), blocks broken, edges shortened "
+          "under a stale index, edge rows appended / truncated under a stale index; mutation parent self/next/last/0/-1; mutation "
+          "time unknown / == node / one ulp below node / == parent node / one ulp below parent node / == or one ulp above parent "
+          "mutation / previous row, known-unknown mix on one site; individual parent self/later/last/null; sequence_length "
+          "0/-1/nan/-0.0/L/2/2L/+-inf/denormal/L-ulp/max right/max right-ulp; 17 validity-preserving edits. index: 53 single "
+          "faults of a user-supplied index (entry out of range / duplicated / reversed / adjacent swap / rotation; first, last, "
+          "middle slot; insertion and removal order). reorder: valid collections in non-canonical order (renumbered nodes, "
+          "equal-time parents in any order, individual parents later in the table, equal-time migrations, other valid mutation "
+          "orders, all mutations at their node's time, extreme coordinates). large: 255-300 children / depth 300 / 260 mutations on "
+          "one site / 300 sites, trees, individuals, migrations / empty collections, with no or one departure in the first or last "
+          "row. Verdict (reject / either / accept) from two independent predicates over the raw rows and index actually handed to "
+          "the gate. Gate = tree_sequence() (+ a second call on the same object for a third of the cases) and two of 16 alternate "
+          "entry points per case (tskit.load of path / Path / open file / skip_reference_sequence, TreeSequence.load, "
+          "TableCollection.load, TreeSequence.load_tables with and without build_indexes, low-level load_tables positional and "
+          "keyword, copy / pickle / fromdict of the collection). Distinct = sha1(rows, operator labels, index); non-trivial when at "
+          "least one operator or a user index was applied."),
+    REQUIRED=["gate-calls:tree_sequence", "gate-calls:tskit.load", "rows-unchanged-checks", "accepted-usable",
+              "verdict-checks:accept", "verdict-checks:reject", "gate-calls:tree_sequence(again)", "gate-calls:load_tables(tc)",
+              "gate-calls:load_tables(tc,build_indexes=True)", "gate-calls:copy().tree_sequence"],
+    ASSUMPTIONS=ASSUME_COMMON + ["requirements the documentation has but the statement does not list (mutation.parent is the mutation "
+                                 "above, an individual is not its own parent), an infinite sequence length, a user-supplied index that "
+                                 "is a sorted permutation with another tie-break than build_index(), and a missing index at an entry "
+                                 "point that does not build one are the EITHER zone: only error type and unchanged rows are checked. "
+                                 "Everything else the two predicates pass is MUST-ACCEPT",
+                                 "files written by TableCollection.dump hold what the collection held (checked by C10)"],
     BUDGET={"quick": 45.0, "thorough": 900.0},
 )
